@@ -211,6 +211,7 @@ func run(cfg RunConfig, pkgPaths []string) (*RunOutput, error) {
 	res := make([]*OblResult, len(jobs))
 	var wg sync.WaitGroup
 	sem := make(chan struct{}, cfg.Workers)
+	files := make([]string, len(jobs))
 	for i, j := range jobs {
 		wg.Add(1)
 		sem <- struct{}{}
@@ -218,6 +219,7 @@ func run(cfg RunConfig, pkgPaths []string) (*RunOutput, error) {
 			defer wg.Done()
 			defer func() { <-sem }()
 			f := writeQuery(qdir, fmt.Sprintf("q%04d", i), j.g.query(j.o, "", false))
+			files[i] = f
 			secs := cfg.Timeout
 			if j.o.Vacuity {
 				secs = 3
@@ -237,6 +239,33 @@ func run(cfg RunConfig, pkgPaths []string) (*RunOutput, error) {
 		}()
 	}
 	wg.Wait()
+	// A `timeout` is not a verdict: under machine load an obligation that needs a few seconds alone can run out of its
+	// budget while 16 workers race several solvers each. Such obligations (at most 12) are tried again when the machine is
+	// quiet - three at a time, four times the budget. Only an `unsat` (a proof) changes anything; this can never hide a failure.
+	{
+		var again []int
+		for i, r := range res {
+			if r != nil && !r.Obl.Vacuity && r.Res.Status == "timeout" && len(again) < 12 {
+				again = append(again, i)
+			}
+		}
+		sem2 := make(chan struct{}, 3)
+		var wg2 sync.WaitGroup
+		for _, i := range again {
+			wg2.Add(1)
+			sem2 <- struct{}{}
+			go func() {
+				defer wg2.Done()
+				defer func() { <-sem2 }()
+				r, all := solve(files[i], 4*cfg.Timeout, cfg.AllSolvers)
+				if r.Status == "unsat" {
+					res[i].Res = r
+					res[i].All = append(res[i].All, all...)
+				}
+			}()
+		}
+		wg2.Wait()
+	}
 	out.SolveSecs = time.Since(t1).Seconds()
 	for _, r := range res {
 		if r.Obl.Vacuity {
